@@ -1,9 +1,11 @@
+\* generated from checks/C07.py (the check passes the same text as cfg_text); kept for running TLC by hand
+\* model of the pinned tree: Refines is expected to be VIOLATED
 SPECIFICATION MCSpec
 CONSTANTS
   Vars = {"x", "y"}
   Ops = {"put", "touch", "remove", "removeif", "ensure", "copy", "move", "ecopy", "emove", "fromraw", "clear", "markro"}
-  SMin = 0
-  SMax = 1
+  SMin = 2
+  SMax = 2
   Preds = {"ideven", "idodd", "all"}
   Keys = {1, 2, 3}
   Caps = {4}
@@ -11,10 +13,10 @@ CONSTANTS
   RawShape = 1
   MaxLen = 3
   MaxKids = 2
-  ZeroTouch = TRUE
+  ZeroTouch = FALSE
   Ptr = FALSE
   FixedSlots = FALSE
-  FixedUnset = FALSE
+  FixedUnset = TRUE
   MaxSteps = 3
   InitLens = {0, 2, 3}
 INVARIANT Refines
